@@ -22,6 +22,9 @@ BINDINGS = {
     "two-bindings-one-struct": [("impl", "can", "A", None, (("id", 1), ("bus", "bus1")), ()), ("impl", "can", "A", "A2", (("id", 2), ("bus", "bus1")), ())],
     "outer-bound-inner-not": [("impl", "uart", "B", None, (("baud", 1),), ())],
     "big-endian": [("impl", "can", "B", None, (("id", 3), ("endianess", "big")), ())],
+    # a second binding of the DEFAULT protocol under a name of its own, declared after the struct (whose own default
+    # binding therefore comes first): "a struct bound several times is only defined once", by its first binding
+    "second-default-binding": [("impl", "default", "B", "BNet", (("endianess", "big"),), ()), ("impl", "default", "A", "ANet", (("note", "x"),), ())],
 }
 SERVICES = {
     "none": [],
